@@ -32,6 +32,8 @@ def make_ctx(tier):
 def run(ctx, tier):
     for r, t in (("Q1", "sort is stable"), ("Q2", "comparator decoders are mirror images"),
                  ("Q3", "serializer and parser byte tables agree"), ("Q4", "C wrappers delegate by name"),
+                 ("Q6", "set(name, value): whenever a pair with that name exists, its value is overwritten and every later pair with "
+                        "the name is erased, unconditionally"),
                  ("Q5", "form-urlencoded decoder: a byte is copied verbatim only after it was tested not to be '+', and ' ' is written only for '+'")):
         ctx.rule(r, t)
     cfgs = C.configs_for(tier, thorough=["release", "devchecks", "amalgamated", "nopattern"])
@@ -94,8 +96,61 @@ def check_decoder_copies(ctx, fx):
     ctx.floor("Q5", n, 2, "single-byte stores of the decoder")
 
 
+def check_set(ctx, fx):
+    """Q6.  URL Standard, URLSearchParams.set(): "if this's list contains any tuples whose name is name, then set the value of
+    the first such tuple to value and remove the others".  Structurally: on every path of url_search_params::set() that goes
+    through the "found" edge of the `it == params.end()` test, both the store to it->second and the erase of the later
+    duplicates are executed (no further condition may skip them)."""
+    f = fx.fn1("ada::url_search_params::set")
+    blk = {b["id"]: b for b in f["blocks"]}
+    found_entry = None
+    for b in f["blocks"]:
+        c = C.term_cond(b)
+        c0 = X.strip(c) if c is not None else None
+        if isinstance(c0, dict) and "params.end()" in X.show(c0).replace("this->", "") and ("==" in X.show(c0) or "!=" in X.show(c0)):
+            eq = "==" in X.show(c0)
+            for e in b["succ"]:
+                if e["when"] == ("false" if eq else "true"):
+                    found_entry = e["to"]
+    if found_entry is None:
+        ctx.broken("Q6: the `it == params.end()` test of url_search_params::set was not found")
+
+    def has(b, what):
+        for st in b["stmts"]:
+            for n in X.stmt_nodes(st):
+                if what == "erase" and n.get("k") == "call" and n.get("name") == "erase" and "params" in X.show(n.get("recv")):
+                    return True
+                if what == "store" and ((n.get("k") == "assign" and "second" in X.show(n["lhs"])) or
+                                        (n.get("k") == "call" and n.get("name") in ("operator=", "assign") and "second" in X.show(n.get("recv")))):
+                    return True
+        return False
+    for what, text in (("store", "overwrites the value of the first pair"), ("erase", "erases the later pairs of that name")):
+        # is the exit reachable from the found edge without passing a block that does `what`?
+        seen, st = set(), [found_entry]
+        escaped = False
+        while st:
+            x = st.pop()
+            if x in seen:
+                continue
+            seen.add(x)
+            if has(blk[x], what):
+                continue
+            if x == f["exit"]:
+                escaped = True
+                break
+            for e in blk[x]["succ"]:
+                if not e.get("pruned"):
+                    st.append(e["to"])
+        ctx.check("Q6", "url_search_params::set %s on every path where the name exists" % text, not escaped, "on every path",
+                  "there is a path through set() on which a pair with the name exists but set() does not %s: the list then still "
+                  "holds the old value or the other pairs of that name" % text[:-1].replace("overwrites", "overwrite").replace("erases", "erase"),
+                  where=f["loc"].replace("/repo/", ""))
+    ctx.floor("Q6", 2, 2, "obligations of set()")
+
+
 def check(ctx, fx):
     check_decoder_copies(ctx, fx)
+    check_set(ctx, fx)
     # ---- Q1 ----
     f = fx.fn1("ada::url_search_params::sort")
     sorts = [n for n, s, b in C.all_nodes(f) if n.get("k") == "call" and "sort" in (n.get("qname") or n.get("callee") or "")]
